@@ -1,7 +1,98 @@
-/- C01 line-protocol driver (core-only). Stub until the property's model lands. -/
+/- C01 line-protocol driver (core-only).
+
+  C01 blk <mode> <recipe> <P> <C> <H> <B> <S> <tx>…
+    mode   VC = compare verdict and rule class, V = verdict only
+    recipe opaque to Lean (how the Go side rebuilds the scenario)
+    P  bip34H,bip65H,bip66H,csvH,segH,tapH,bip94,maturity,subsidyInterval,powLimit(hex),blocksPerRetarget,bip34HashOk
+    C  height,prevMTP,prevTime,expectedBits(hex),now
+    H  version,bits(hex),time,hashNum(hex)
+    B  strippedSize,totalSize,merkleOk,dupTxids,commit,cbHeight
+    S  hOk,hFail   best-chain height the scenario ends with if the candidate is valid / invalid
+    tx version;lockTime;strippedSize;dupInputs;script0Len;legacySigops;hasWitness;overwrites;outs;ins
+       outs  v_v_v…  (v*k = k copies), ~ = none
+       ins   in/in/…  ~ = none; in = null:seq:avail:isCb:originHeight:originPrevMTP:amount:p2shSigops:witSigops:failsAlways:failsUnder
+-/
+import BV.Common.Hex
+import BV.C09.Model
+import BV.C01.Model
 namespace BV.C01.Driver
+open BV.Hex
+
+def pBool? (s : String) : Option Bool :=
+  if s == "1" then some true else if s == "0" then some false else none
+
+def pIn? (s : String) : Option InFacts :=
+  match s.splitOn ":" with
+  | [nl, sq, av, cb, oh, om, am, ps, ws, fa, fu] => do
+    pure ⟨← pBool? nl, ← sq.toNat?, ← pBool? av, ← pBool? cb, ← oh.toInt?, ← om.toInt?, ← am.toInt?,
+          ← ps.toInt?, ← ws.toInt?, ← pBool? fa, ← fu.toNat?⟩
+  | _ => none
+
+def pOut? (s : String) : Option (List Int) :=
+  match s.splitOn "*" with
+  | [v] => do pure [← v.toInt?]
+  | [v, k] => do pure (List.replicate (← k.toNat?) (← v.toInt?))
+  | _ => none
+
+def pList? {α} (sep : String) (f : String → Option α) (s : String) : Option (List α) :=
+  if s == "~" then some [] else (s.splitOn sep).mapM f
+
+def pTx? (s : String) : Option TxFacts :=
+  match s.splitOn ";" with
+  | [ver, lt, ss, di, sl, ls, hw, ow, outs, ins] => do
+    let outs ← pList? "_" pOut? outs
+    pure { version := ← ver.toNat?, lockTime := ← lt.toInt?, ins := ← pList? "/" pIn? ins,
+           outs := outs.flatten, strippedSize := ← ss.toInt?, dupInputs := ← pBool? di,
+           script0Len := ← sl.toInt?, legacySigops := ← ls.toInt?, hasWitness := ← pBool? hw,
+           overwrites := ← pBool? ow }
+  | _ => none
+
+def pParams? (s : String) : Option Params :=
+  match s.splitOn "," with
+  | [a, b, c, cs, sg, tp, b94, mat, si, pl, bpr, hok] => do
+    pure ⟨← a.toInt?, ← b.toInt?, ← c.toInt?, ← cs.toInt?, ← sg.toInt?, ← tp.toInt?, ← pBool? b94,
+          ← mat.toInt?, ← si.toInt?, ((← hexToNat? pl : Nat) : Int), ← bpr.toInt?, ← pBool? hok⟩
+  | _ => none
+
+def pCtx? (s : String) : Option Ctx :=
+  match s.splitOn "," with
+  | [h, m, t, eb, now] => do pure ⟨← h.toInt?, ← m.toInt?, ← t.toInt?, ← hexToNat? eb, ← now.toInt?⟩
+  | _ => none
+
+def pHeader? (s : String) : Option Header :=
+  match s.splitOn "," with
+  | [v, b, t, hn] => do
+    let bits ← hexToNat? b
+    pure ⟨← v.toInt?, bits, ← t.toInt?, BV.C09.compactToBig bits, ← hexToNat? hn⟩
+  | _ => none
+
+def pBlock? (s : String) (txs : List TxFacts) : Option BlockFacts :=
+  match s.splitOn "," with
+  | [ss, ts, mo, dt, cm, ch] => do
+    pure ⟨← ss.toInt?, ← ts.toInt?, txs, ← pBool? mo, ← pBool? dt, ← cm.toNat?, ← ch.toInt?⟩
+  | _ => none
+
+def pScen? (s : String) : Option (Int × Int) :=
+  match s.splitOn "," with
+  | [a, b] => do pure (← a.toInt?, ← b.toInt?)
+  | _ => none
+
+def answer (mode : String) (d : Desc) (hOk hFail : Int) : String :=
+  match validBlock d with
+  | .ok _ => s!"accept in=1 h={hOk}"
+  | .error _ =>
+    if mode == "VC" then s!"reject:{String.intercalate "+" (violatedClasses d)} in=0 h={hFail}"
+    else s!"reject in=0 h={hFail}"
 
 def handle : List String → String
-  | _ => "unimplemented"
+  | "blk" :: mode :: _recipe :: p :: c :: h :: b :: s :: txs =>
+    if mode != "VC" && mode != "V" then "bad-op" else
+    match pParams? p, pCtx? c, pHeader? h, txs.mapM pTx?, pScen? s with
+    | some p, some c, some h, some txs, some (hOk, hFail) =>
+      match pBlock? b txs with
+      | some b => answer mode ⟨p, c, h, b⟩ hOk hFail
+      | none => "bad-op"
+    | _, _, _, _, _ => "bad-op"
+  | _ => "bad-op"
 
 end BV.C01.Driver
